@@ -95,6 +95,20 @@ pub enum ExpSpan {
 pub fn cmp_val(r: &Val, i: &Val, sm: &SpanMap, base: usize) -> Result<(), String> {
     match (r, i) {
         (Val::Span(s, e), Val::Span(a, b)) => sm.check_span(*s, *e, (*a, *b)),
+        (Val::Abs(x, y, true), Val::Span(a, b)) => {
+            if (x, y) == (a, b) {
+                Ok(())
+            } else {
+                Err(format!("span {}..{} inside a nested input, expected {}..{}", a, b, x, y))
+            }
+        }
+        (Val::Abs(x, y, false), Val::Span(a, b)) => {
+            if a == b && x <= a && a <= y {
+                Ok(())
+            } else {
+                Err(format!("span {}..{} for an empty match inside a nested input (must be empty and within {}..={})", a, b, x, y))
+            }
+        }
         (Val::Obs(id, s, e, rv), Val::Obs(id2, a, b, iv)) => {
             if id != id2 {
                 return Err(format!("node id {} vs {}", id, id2));
@@ -228,8 +242,18 @@ pub fn pats(a: &AltR) -> Vec<Pat> {
 /// compares the expected set / user message.
 pub fn cmp_err(a: &AltR, d: &ErrDesc, sm: &SpanMap, strict: bool) -> Result<(), String> {
     let n = sm.n();
-    let exp_start = if a.span.0 < n { sm.starts[a.span.0] } else { sm.eoi.0 } + sm.shift;
-    if d.span.0 != exp_start {
+    // an error at the end of an input whose eoi span is not empty may sit at either end of that span
+    let (exp_start, alt_start) = match a.abs {
+        Some(abs) => (abs.0, a.abs_end_alt.unwrap_or(abs.0)),
+        None => {
+            if a.span.0 < n {
+                (sm.starts[a.span.0] + sm.shift, sm.starts[a.span.0] + sm.shift)
+            } else {
+                (sm.eoi.0 + sm.shift, sm.eoi.1 + sm.shift)
+            }
+        }
+    };
+    if d.span.0 != exp_start && d.span.0 != alt_start {
         return Err(format!(
             "error span starts at {} but the furthest failure is at token {} (offset {})",
             d.span.0, a.pos, exp_start
@@ -288,7 +312,12 @@ pub fn cmp_emis(e: &Emis, d: &ErrDesc, sm: &SpanMap, strict_recovered: bool) -> 
             } else if d.expected.is_some() {
                 return Err(format!("emitted an expected/found error where {:?} was expected", want));
             }
-            sm.check_span(e.span.0, e.span.1, d.span).map_err(|m| format!("{}: {}", want, m))
+            match &e.abs {
+                None => sm.check_span(e.span.0, e.span.1, d.span).map_err(|m| format!("{}: {}", want, m)),
+                Some(ExpSpan::Exact(a, b)) if d.span == (*a, *b) => Ok(()),
+                Some(ExpSpan::EmptyIn(a, b)) if d.span.0 == d.span.1 && *a <= d.span.0 && d.span.0 <= *b => Ok(()),
+                Some(x) => Err(format!("{}: span {:?} of an error emitted inside a nested input, expected {:?}", want, d.span, x)),
+            }
         }
         EmisKind::Recovered(a) => {
             if d.custom.as_deref().map(|m| m.starts_with('V')).unwrap_or(false) {
